@@ -21,6 +21,8 @@ where
     now: usize,
     iter: I,
     communication: Vec<ThreadCommunication<I::Item, T>>,
+    /// Does the thread have a task which it has not answered yet?
+    pending: Vec<bool>,
     handles: Vec<std::thread::JoinHandle<()>>,
 }
 
@@ -60,10 +62,18 @@ where
         }
 
         // Get answer from the thread number `self.now`.
-        let result = self.communication[self.now].receive.recv().unwrap_or_default();
+        let result = match self.communication[self.now].receive.recv() {
+            Ok(result) => result,
+            // The thread finished because it was told so.
+            Err(_) if !self.pending[self.now] => None,
+            // The thread died while processing a task, do not pretend that the iteration ended.
+            Err(_) => panic!("A worker thread of parallel_map failed to process its task."),
+        };
 
         // Some(task) means more work for the thread, None means the thread should finish.
-        let _ = self.communication[self.now].send.send(self.iter.next());
+        let next_task = self.iter.next();
+        self.pending[self.now] = next_task.is_some();
+        let _ = self.communication[self.now].send.send(next_task);
 
         // Move to the next thread (which should be finishing soonest if all tasks take
         // the same time).
@@ -114,6 +124,7 @@ where
 
     // Start the threads and send an item to each of them.
     let mut communication = Vec::new();
+    let mut pending = Vec::new();
     let mut handles = Vec::new();
     for t in 0 .. threads {
         // Next task for the thread.
@@ -137,9 +148,10 @@ where
 
         // Send the task.
         let _ = communication[t].send.send(next_task);
+        pending.push(true);
     }
 
-    ParallelMap { now: 0, iter, communication, handles }
+    ParallelMap { now: 0, iter, communication, pending, handles }
 }
 
 #[cfg(test)]
